@@ -385,6 +385,13 @@ def milk(index, rep):
         if d and d.endswith(".get_milk_produced_postwaste"):
             return (Rat.atom(("MILKFN", str(interp.to_rat(args[0])))), Rat.atom(("mf",)), Rat.atom(("mp",)))
         if d and d.endswith(".get_meat_nutrition"):
+            # the per-kg constants (not what this rule is about) in whatever shape the routine hands them back: a tuple, or a table to merge
+            gm = index.func(MD, "MeatAndDairy.get_meat_nutrition", required=False)
+            rt = [r_.value for r_ in ast.walk(gm) if isinstance(r_, ast.Return) and r_.value is not None] if gm is not None else []
+            if rt and all(isinstance(v_, ast.Tuple) for v_ in rt):
+                return tuple(Rat.atom(("mn", i)) for i in range(len(rt[0].elts)))
+            if rt and all(isinstance(v_, (ast.Dict, ast.DictComp)) for v_ in rt):
+                return PDict()
             return tuple(Rat.atom(("mn", i)) for i in range(8))
         return NotImplemented
 
